@@ -430,6 +430,79 @@ pub mod verif_c01 {
         Ok((rounds, left))
     }
 
+    /// Like `convert_h1_response`, with the response arriving in two reads: the
+    /// first `cut` bytes are parsed and converted with `windows[0]`, then the rest
+    /// is parsed and the remaining windows are used.
+    pub fn convert_h1_response_split(
+        windows: &[i32],
+        max_frame_size: usize,
+        stream_id: u32,
+        response: &[u8],
+        cut: usize,
+    ) -> Result<(Vec<(Vec<u8>, i32)>, Vec<usize>), String> {
+        let mut encoder = loona_hpack::Encoder::new();
+        let mut storage = vec![0u8; response.len() + 64];
+        let mut kawa = Kawa::new(Kind::Response, Buffer::new(SliceBuffer(&mut storage)));
+        let cut = cut.min(response.len());
+        kawa.storage.space()[..cut].copy_from_slice(&response[..cut]);
+        kawa.storage.fill(cut);
+        kawa::h1::parse(&mut kawa, &mut kawa::h1::NoCallbacks);
+        let mut rounds = Vec::new();
+        for (i, w) in windows.iter().enumerate() {
+            if i == 1 {
+                let rest = response.len() - cut;
+                kawa.storage.space()[..rest].copy_from_slice(&response[cut..]);
+                kawa.storage.fill(rest);
+                kawa::h1::parse(&mut kawa, &mut kawa::h1::NoCallbacks);
+            }
+            if kawa.is_error() {
+                return Err(format!("parse error: phase {:?}", kawa.parsing_phase));
+            }
+            let mut converter = super::converter::H2BlockConverter {
+                max_frame_size,
+                window: *w,
+                stream_id,
+                encoder: &mut encoder,
+                out: Vec::new(),
+                scheme: b"https",
+                lowercase_buf: Vec::new(),
+                cookie_buf: Vec::new(),
+                position_is_client: false,
+                incremental_mode: false,
+                incremental_peer_count: 0,
+            pending_table_size_min: None,
+                pending_table_size_update: None,
+                size_update_emitted: false,
+                pending_oversized_abort: false,
+            };
+            kawa.prepare(&mut converter);
+            let after = converter.window;
+            let mut out = Vec::new();
+            for block in kawa.out.iter() {
+                if let OutBlock::Store(store) = block {
+                    out.extend_from_slice(store.data(kawa.storage.buffer()));
+                }
+            }
+            kawa.consume(out.len());
+            rounds.push((out, after));
+        }
+        if windows.len() < 2 || !kawa.is_terminated() {
+            return Err(format!(
+                "response not parsed to its end: phase {:?}",
+                kawa.parsing_phase
+            ));
+        }
+        let left = kawa
+            .blocks
+            .iter()
+            .map(|b| match b {
+                Block::Chunk(Chunk { data }) => data.len(),
+                _ => usize::MAX,
+            })
+            .collect();
+        Ok((rounds, left))
+    }
+
     /// The HTTP/1.1 bytes of the blocks the real `pkawa::handle_trailer` pushes
     /// for a trailer block that ends an upload (a chunked one, or one framed
     /// by `content_length`), as kawa's H1 converter writes them.
